@@ -247,6 +247,7 @@ func c04Loop(c *Ctx) {
 	// pad: code == 0 → header, before the length read
 	okPad, okEnd := false, false
 	var endBlock *ssa.BasicBlock
+	var endE Edge
 	for b := range loop {
 		iff := ifOf(b)
 		if iff == nil {
@@ -275,6 +276,7 @@ func c04Loop(c *Ctx) {
 			}
 			okEnd = leaves && b.Dominates(length.Block())
 			endBlock = t
+			endE = Edge{b, t}
 		}
 	}
 	r.Check(okPad, "C04-K2", key("pad (code 0) is skipped without reading a length"), c.P.ipos(code), "code==0 edge returns to the loop header before the length read", "a pad byte is treated as an option with a length")
@@ -294,6 +296,37 @@ func c04Loop(c *Ctx) {
 	cs := sx.Of(consume.Call.Args[1]).String()
 	r.Check(cs == "conv[int]("+sx.Of(length).String()+")", "C04-K2", key("value length is the length byte"), c.P.ipos(consume), "symx", "Consume size is "+cs)
 	// End required
+	// isEndFlag: a boolean φ that is true only on paths through the `code == 255` edge (a flag raised in the End case,
+	// whatever the variable is called)
+	var isEndFlag func(v ssa.Value, d int) bool
+	isEndFlag = func(v ssa.Value, d int) bool {
+		ph, ok := v.(*ssa.Phi)
+		if !ok || d > 3 {
+			return false
+		}
+		sawTrue := false
+		for i, e := range ph.Edges {
+			if b, isB := boolConst(e); isB {
+				if b {
+					pred := ph.Block().Preds[i]
+					if !(pred == endE.To || mustPassEdges(f, pred, endE)) {
+						return false
+					}
+					sawTrue = true
+				}
+				continue
+			}
+			if e == v {
+				continue
+			}
+			if isEndFlag(e, d+1) {
+				sawTrue = true
+				continue
+			}
+			return false
+		}
+		return sawTrue
+	}
 	if endBlock != nil {
 		for _, ret := range returnsOf(f) {
 			if !isNilConst(ret.Results[0]) || ret.Block() == f.Blocks[1] {
@@ -310,13 +343,12 @@ func c04Loop(c *Ctx) {
 					_ = tE
 					noCheck = append(noCheck, fE)
 				}
-				if tE, _, ok := boolEdgesOf(iff, func(v ssa.Value) bool {
-					ph, ok := v.(*ssa.Phi)
-					return ok && ph.Comment == "end"
-				}); ok {
+				if tE, _, ok := boolEdgesOf(iff, func(v ssa.Value) bool { return isEndFlag(v, 0) }); ok {
 					endEdge = append(endEdge, tE)
 				}
 			}
+			// having taken the `code == 255` edge itself (an early return from the End case, or a break)
+			endEdge = append(endEdge, endE)
 			if len(gcFacts(c, ret.Block())) == 0 && ret.Block().Index <= 1 {
 				continue // the early `len(data) == 0` return is judged by the caller's cookie/length rules
 			}
